@@ -8,16 +8,23 @@ def run(ctx):
         return replay(ctx)
     ctx.tlc_mc("", "TxPath", "MC_TxPath_thorough.cfg" if thorough else "MC_TxPath.cfg", workers=8, heap="8g")
     ctx.tlc_expect_violation("", "TxPath", "MC_TxPath_AsIs.cfg", "pinned algorithm: no EOM at exact multiples of the body size")
+    ctx.tlc_mc("", "TxPath", "MC_TxPath_Abort.cfg", workers=8, heap="8g")
+    ctx.tlc_expect_violation("", "TxPath", "MC_TxPath_Abort_NoReset.cfg",
+                             "variant that resets the channel only after a successful flush: residue reaches the next message")
+    ctx.tlc_expect_violation("", "TxPath", "MC_TxPath_Abort_NoEomCtx.cfg",
+                             "variant without a context check before the terminating empty packet (C13: writes with a cancelled context)")
     g1 = ctx.tlc_generate("", "TxPath", "Gen_TxPath_thorough.cfg" if thorough else "Gen_TxPath.cfg", workers=4)
     g2 = ctx.tlc_generate("", "TxPath", "GenSim_TxPath.cfg", workers=4,
                           args=["-simulate", "num=%d" % (1500 if thorough else 200), "-depth", "13", "-seed", str(ctx.seed)])
-    scns = g1["scenarios"] + g2["scenarios"]
+    g3 = ctx.tlc_generate("", "TxPath", "GenSim_TxPath_Abort.cfg", workers=4,
+                          args=["-simulate", "num=%d" % (1500 if thorough else 200), "-depth", "13", "-seed", str(ctx.seed + 7)])
+    scns = g1["scenarios"] + g2["scenarios"] + g3["scenarios"]
     f = os.path.join(ctx.scratch, "tx-scn.json")
     json.dump(scns, open(f, "w"))
     t1 = os.path.join(ctx.scratch, "tx-u2.ndjson")
     ctx.run_driver(["tx", "-scn", f, "-out", t1])
     s1 = json.load(open(t1 + ".summary.json"))
-    ctx.validate("", "Trace_TxPath", "Trace_TxPath.cfg", t1, label="TLC-generated behaviours (body sizes 2..5)")
+    ctx.validate("", "Trace_TxPath", "Trace_TxPath.cfg", t1, label="TLC-generated behaviours (body sizes 2..5)", extra_env={"JUDGE": "C01"})
     t2 = os.path.join(ctx.scratch, "tx-dir.ndjson")
     if thorough:
         # every packet size 256..65535, boundary lengths, in parallel slices
@@ -44,19 +51,19 @@ def run(ctx):
     else:
         ctx.run_driver(["tx", "-directed", "quick", "-seed", ctx.seed, "-out", t2])
         s2 = json.load(open(t2 + ".summary.json"))
-    ctx.validate("", "Trace_TxPath", "Trace_TxPath.cfg", t2, label="directed k*(ps-8)+d, all call splits")
+    ctx.validate("", "Trace_TxPath", "Trace_TxPath.cfg", t2, label="directed k*(ps-8)+d, all call splits", extra_env={"JUDGE": "C01"})
     t3 = os.path.join(ctx.scratch, "tx-rand.ndjson")
     ctx.run_driver(["tx", "-count", 4000 if thorough else 400, "-seed", ctx.seed, "-out", t3])
     s3 = json.load(open(t3 + ".summary.json"))
-    ctx.validate("", "Trace_TxPath", "Trace_TxPath.cfg", t3, label="random messages, packet sizes 9..65535")
+    ctx.validate("", "Trace_TxPath", "Trace_TxPath.cfg", t3, label="random messages, packet sizes 9..65535", extra_env={"JUDGE": "C01"})
     ctx.extra.update({"u2_scenarios": s1["scenarios"], "model_drift_steps": s1["drift"],
                       "directed_messages": s2["messages"], "directed_packets": s2["packets"],
                       "random_messages": s3["messages"], "random_packets": s3["packets"]})
     ctx.assumptions += [
-        "the packet size in force is what Conn.PacketSize() reports after a genuine ENVCHANGE(PACKSIZE) fed through Channel.WritePacket",
+        "the packet size in force is the size announced by a genuine ENVCHANGE(PACKSIZE) fed through Channel.WritePacket (256..65535; for the tiny sizes of the TLC scope, outside that range, what Conn.PacketSize() reports)",
         "content check: each observed packet body is compared with the harness's own copy of the queued encodings at the observed offset (field clean)",
         "channel 0; logical channels > 0 are exercised by the C12 check",
-        "a message in which a call failed (cancelled context) is not judged until the next flush (outside C01's quantifier)"]
+        "a message in which a call failed (cancelled context) is not judged until the next flush (outside C01's quantifier); the message after an abandoned flush is judged in full (nothing left behind)"]
     return ctx.finish(rule="U1 exhaustive small scope; U2 all behaviours of the small scope; U3 every boundary length at selected/all packet sizes")
 
 
@@ -65,5 +72,5 @@ def replay(ctx):
     desc = json.loads(json.loads(lines[0])["desc"])
     t = os.path.join(ctx.scratch, "tx-replay.ndjson")
     ctx.run_driver(["tx", "-desc", json.dumps(desc), "-out", t])
-    ctx.validate("", "Trace_TxPath", "Trace_TxPath.cfg", t, shards=1, label="replay")
+    ctx.validate("", "Trace_TxPath", "Trace_TxPath.cfg", t, shards=1, label="replay", extra_env={"JUDGE": "C01"})
     return ctx.finish()
